@@ -1156,6 +1156,7 @@ func parentMain() {
 		"Oracle: no recovered Go panic, no worker death/ASan report, termination, error satisfies a documented predicate (plain error for hash/random), documented-invalid length/range not reported as success.")
 	run.Assume("the C layer is instrumented by -asan (gcc); Go heap redzones make C over-reads of Go buffers visible; inputs are heap allocated",
 		"nil interface / nil callback arguments, UintN(0), linear-memory sizes above 2^16 and no-cgo builds are documented exceptions and are not passed",
+		"random: avoiding the cycling of the 2^38-byte ChaCha20 keystream is documented as the caller's responsibility (random/chacha20.go header): restored PRG states that are read from use counters below 2^38-2^22 (all-0xff seed/nonce bytes, bounded counter); crafted counters at or beyond the period are passed to RestoreChacha20PRG only, never read from",
 		"methods promoted from embedded standard-library types (hash.Hash, sha3.ShakeHash) that are not part of hash.Hasher are outside the three packages' declared API",
 		"DKG state de-duplication hashes every field of the real instance (dkgsys.InstHash); states are rebuilt in the workers by replaying their path")
 	run.Finish()
